@@ -61,6 +61,7 @@ class _Worker:
         self.log_path = log_path
         self.extra_env = extra_env or {}
         self.proc = None
+        self.calls = 0
         self.start()
 
     def start(self):
@@ -105,7 +106,24 @@ class _Worker:
             except OSError:
                 pass
 
+    # optlang never frees the GLPK problem of a discarded model (~80 KB per bench model): workers are recycled
+    # after RECYCLE_AFTER tasks or as soon as their resident set exceeds RSS_LIMIT_MB
+    RECYCLE_AFTER = 400
+    RSS_LIMIT_MB = 1200
+
+    def _rss_mb(self):
+        try:
+            with open(f"/proc/{self.proc.pid}/statm") as fh:
+                return int(fh.read().split()[1]) * 4096 / 1e6
+        except Exception:
+            return 0.0
+
     def call(self, payload, timeout):
+        self.calls += 1
+        if self.calls > self.RECYCLE_AFTER or (self.calls > 1 and self._rss_mb() > self.RSS_LIMIT_MB):
+            self.shutdown()
+            self.calls = 1
+            self.start()
         try:
             _send(self.wfd, payload)
         except OSError:
